@@ -61,7 +61,7 @@ def draw_netcfg(c, faults=False):
     cfg.recv_frag = c.pick(("whole", "random", "whole", "tiny"))
     cfg.send_frag = c.pick(("whole", "random", "whole"))
     cfg.deliver_frag = c.pick(("whole", "random"))
-    cfg.cap = c.pick((1 << 22, 1 << 22, 4096, 256))
+    cfg.cap = c.pick((1 << 22, 1 << 22, 1 << 16, 1 << 17))      # small buffers are C05's subject; two peers writing more than the buffers hold at the same time deadlock any protocol that does not read while writing
     if faults:
         cfg.transient_permille = c.pick((0, 0, 50))
     return cfg
@@ -92,3 +92,26 @@ class Knobs(object):
         from rpyc.core.channel import Channel
         from rpyc.core.stream import SocketStream
         Channel.COMPRESSION_THRESHOLD, SocketStream.MAX_IO_CHUNK = self.old
+
+
+def connect_pair_serving(k, svc_a, svc_b, cfg_a=None, cfg_b=None, compress=(True, True), family=_rs.AF_UNIX, tap=False):
+    """like connect_pair, but B is created and served (serve_all) by its own task from the start - needed when
+    on_connect itself talks to the peer (classic services fetch the remote root while connecting)"""
+    from rpyc.core.channel import Channel
+    from rpyc.core.stream import SocketStream
+    sim = k.sim
+    a, b = k.socketpair(family)
+    ledger = None
+    if tap:
+        ledger, _, _ = tap_pair(sim, a, b)
+    box = {}
+
+    def b_main():
+        cb = svc_b._connect(Channel(SocketStream(b), compress[1]), dict(cfg_b or {}, connid="B"))
+        box["cb"] = cb
+        cb.serve_all()
+    srv = sim.spawn(b_main, _name="B.serve_all")
+    ca = svc_a._connect(Channel(SocketStream(a), compress[0]), dict(cfg_a or {}, connid="A"))
+    if "cb" not in box:
+        sim.block(lambda: "cb" in box or srv.state == core.DONE, 60, "wait-B-connect")
+    return ca, box.get("cb"), ledger, srv
